@@ -575,11 +575,14 @@ def programs(draw, max_depth=4, max_stmts=5, features=None):
                 labels = [["n", draw(st.sampled_from([0, 1, 2, 3]))] for _ in range(nl)]
                 blk = block(ctx.sub(), ends="any", maxlen=2) if draw(st.integers(0, 5)) > 0 else None
                 cases.append([labels, blk])
-            # a fall-through case needs a later case body to fall into (trailing bare `case x;` is excluded by
-            # construction: known finding C02 switch-yields-switch-object, see known_findings.json)
-            while cases and cases[-1][1] is None:
-                cases.pop()
+            # a trailing bare `case x;` has no body to fall into: if it is the one that matches, nothing is selected and the switch yields nil
+            # (it used to be excluded by construction while the switch yielded its internal SWITCH object; repaired since)
             dflt = block(ctx.sub(), ends="any", maxlen=2) if draw(st.booleans()) else None
+            # (with a default block present the shape stays excluded: whether a matched body-less case still lets the default run is not
+            # described by the property)
+            if cases and cases[-1][1] is None and (dflt is not None or draw(st.integers(0, 2)) != 0):
+                while cases and cases[-1][1] is None:
+                    cases.pop()
             return ["switch", numexpr(ctx, 1), cases, dflt, draw(st.integers(0, 3))]
         if k == "try":
             tb = block(ctx.sub(in_try=True, scopes=()), ends="any")
